@@ -248,6 +248,12 @@ def c14(v):
         run = b is not None and b[SEQ] < pos
         f = v.fin(name)
         done = f is not None and f[SEQ] < pos
+        # a job to which a cancellation was delivered while it was pending
+        # is a cancelled job, whatever its coroutine then returned (the
+        # jobs of the alphabet honour cancellation; a scheduler must too)
+        cq = v.evs('creq', name)
+        if done and cq and cq[0][SEQ] < f[SEQ]:
+            done = 'cancelled'
         return sched, run, done, f
 
     def judge(where, pos, name, idle, scheduled, running, done, exc, res):
@@ -263,6 +269,14 @@ def c14(v):
         if bool(running) != gr:
             bad.append("is_running()=%r but its body %s" % (
                 running, "was entered" if gr else "was not entered"))
+        if gd == 'cancelled':
+            gd = False
+            if done:
+                bad.append("is_done()=%r for a job that was cancelled (the "
+                           "cancellation was delivered at #%d, before its "
+                           "coroutine ended)" % (done,
+                                                 v.evs('creq', name)[0][SEQ]))
+                done = False
         if done is not True and done is not False:
             bad.append("is_done() -> %r" % (done,))
         elif done != gd:
